@@ -1,5 +1,7 @@
 // Correspondence harness for C17: drives the real Sha256 class on the op file.
 #include "vh.hpp"
+#include <sys/mman.h>
+#include <errno.h>
 #define private public
 #include <nstd/Crypto/Sha256.hpp>
 #undef private
@@ -14,6 +16,44 @@ static void begin(long, vh::Tok&)
   void* mem = calloc(1, sizeof(Sha256));
   sha = new (mem) Sha256;
 }
+
+// ---- one update() call over n bytes, byte i = pat[i mod len] (ops updfill / updfillx / hmacfill) -------------------
+// Up to 64 MiB the bytes live in an exact-size heap block (ASan sees a one byte over-read).  Beyond that the n bytes
+// are not materialised: a small shared-memory object holding the pattern is mapped again and again into one
+// contiguous range of address space, so a single call with n > 2^32 needs a few MiB of memory; the range ends on a
+// PROT_NONE page (a one byte over-read is a segv).
+struct Fill { unsigned char* data; void* base; size_t maplen; };
+
+static Fill fill_make(const unsigned char* pat, size_t len, size_t n)
+{
+  Fill f; f.base = 0; f.maplen = 0;
+  if(len == 0) n = 0;
+  if(n <= ((size_t)64 << 20)) {
+    f.data = (unsigned char*)malloc(n ? n : 1);
+    if(!f.data) { printf("?harness-out-of-memory"); exit(3); }
+    for(size_t i = 0; i < n; ++i) f.data[i] = pat[i % len];
+    return f;
+  }
+  size_t unit = len * 4096;                                   // a multiple of the page size and of the pattern length
+  size_t chunk = unit * ((((size_t)16 << 20) + unit - 1) / unit);
+  size_t chunks = (n + chunk - 1) / chunk, total = chunks * chunk;
+  int fd = memfd_create("c17fill", 0);
+  if(fd < 0 || ftruncate(fd, (off_t)chunk) != 0) { printf("?harness-memfd:%d", errno); exit(3); }
+  unsigned char* w = (unsigned char*)mmap(0, chunk, PROT_READ | PROT_WRITE, MAP_SHARED, fd, 0);
+  if(w == (unsigned char*)MAP_FAILED) { printf("?harness-mmap:%d", errno); exit(3); }
+  // the data starts at total - n (so that it ends at the guard page): rotate the pattern accordingly
+  for(size_t j = 0; j < chunk; ++j) w[j] = pat[(j + n) % len];
+  munmap(w, chunk);
+  unsigned char* base = (unsigned char*)mmap(0, total + 4096, PROT_NONE, MAP_PRIVATE | MAP_ANONYMOUS | MAP_NORESERVE, -1, 0);
+  if(base == (unsigned char*)MAP_FAILED) { printf("?harness-reserve:%d", errno); exit(3); }
+  for(size_t c = 0; c < chunks; ++c)
+    if(mmap(base + c * chunk, chunk, PROT_READ, MAP_SHARED | MAP_FIXED, fd, 0) == MAP_FAILED) { printf("?harness-map:%d", errno); exit(3); }
+  close(fd);
+  f.base = base; f.maplen = total + 4096; f.data = base + (total - n);
+  return f;
+}
+
+static void fill_free(Fill& f) { if(f.base) munmap(f.base, f.maplen); else free(f.data); }
 
 static void state_out()
 {
@@ -39,6 +79,21 @@ static void op(long c, long, vh::Tok& t)
     for(unsigned long long r = 0; r < times; ++r) sha->update(d, n);
     free(d);
     printf("-");
+  } else if(!strcmp(t.v[0], "updfill") || !strcmp(t.v[0], "updfillx")) {
+    // ONE update() call with <n> bytes, byte i = pattern[i mod len] (the width of `size`; updfillx = the same call,
+    // judged by python hashlib because model and spec cannot follow that far)
+    size_t len; unsigned char* pat = vh::unhex(t.v[1], len);
+    size_t n = (size_t)strtoull(t.v[2], 0, 10);
+    Fill f = fill_make(pat, len, n);
+    sha->update(f.data, len ? n : 0);
+    fill_free(f); free(pat);
+    printf("-");
+  } else if(!strcmp(t.v[0], "setcount")) {
+    // WHITE BOX (the one place where the harness writes private state): the byte counter is set to <n>; state words
+    // and block buffer stay.  Only the MODEL predicts what follows (correspondence of finalize/update from a given
+    // internal state); the property-level oracle does not judge such a case.
+    sha->count = (uint64)strtoull(t.v[1], 0, 10);
+    printf("-");
   } else if(!strcmp(t.v[0], "fin")) {
     byte dig[Sha256::digestSize];
     sha->finalize(dig);
@@ -55,6 +110,23 @@ static void op(long c, long, vh::Tok& t)
     size_t kn, mn; unsigned char* k = vh::unhex(t.v[1], kn); unsigned char* m = vh::unhex(t.v[2], mn);
     byte dig[Sha256::digestSize];
     Sha256::hmac(k, kn, m, mn, dig); free(k); free(m);
+    vh::puthex(dig, sizeof(dig));
+  } else if(!strcmp(t.v[0], "hashfill") || !strcmp(t.v[0], "hashfillx")) {
+    size_t len; unsigned char* pat = vh::unhex(t.v[1], len);
+    size_t n = (size_t)strtoull(t.v[2], 0, 10);
+    Fill f = fill_make(pat, len, n);
+    byte dig[Sha256::digestSize];
+    Sha256::hash(f.data, len ? n : 0, dig);
+    fill_free(f); free(pat);
+    vh::puthex(dig, sizeof(dig));
+  } else if(!strcmp(t.v[0], "hmacfill") || !strcmp(t.v[0], "hmacfillx")) {
+    // hmacfill <key pattern> <key length> <message pattern> <message length>
+    size_t kl, ml; unsigned char* kp = vh::unhex(t.v[1], kl); unsigned char* mp = vh::unhex(t.v[3], ml);
+    size_t kn = (size_t)strtoull(t.v[2], 0, 10), mn = (size_t)strtoull(t.v[4], 0, 10);
+    Fill k = fill_make(kp, kl, kn), m = fill_make(mp, ml, mn);
+    byte dig[Sha256::digestSize];
+    Sha256::hmac(k.data, kl ? kn : 0, m.data, ml ? mn : 0, dig);
+    fill_free(k); fill_free(m); free(kp); free(mp);
     vh::puthex(dig, sizeof(dig));
   } else {
     printf("?unknown-op");
